@@ -784,7 +784,10 @@ func c20CLI(c *ev.Ctx) {
 			case 0:
 				data = data[:r.Intn(len(data)+1)]
 			case 1:
-				data = []byte([]string{"[1,2]", "3", "\"s\"", "null", "", "{", "{\"a\":}", "\x00\xff"}[r.Intn(8)])
+				data = []byte([]string{"[1,2]", "3", "\"s\"", "null", "", "{", "{\"a\":}", "\x00\xff",
+					// a document followed by something else is not a document
+					"{\"Count\": 1}\n{\"Count\": 5}", "{\"Count\": 1} }", "{\"Count\": 1} trailing", "{\"Count\": 1}{", "{} []", "{\"a\": 1},", "{\"a\": 1}\n\n  \t", "{\"a\": 1} null", "{\"a\": 1}\x00",
+					"{\"a\": 1, \"a\": 2}", "{\"a\": 1e999}", "{\"a\": 01}", "{'a': 1}", "{\"a\": NaN}", "\ufeff{\"a\": 1}"}[r.Intn(23)])
 			case 2:
 				data = []byte(gen.RandBytes(r, r.Intn(40)))
 			}
